@@ -98,9 +98,17 @@ pub enum Ev {
 
 #[derive(Serialize, Deserialize, Clone, Debug, PartialEq)]
 pub struct PlanR {
+    /// do the two geodesy/ directories exist when the contexts are created? (if not,
+    /// they come into being with the first file written under them)
+    #[serde(default = "yes")]
+    pub roots_exist: bool,
     /// context kinds: 0 Minimal::new, 1 Minimal::default, 2 Plain::new, 3 Plain::default
     pub ctxs: Vec<u8>,
     pub events: Vec<Ev>,
+}
+
+fn yes() -> bool {
+    true
 }
 
 pub enum AnyCtx {
@@ -145,7 +153,49 @@ pub fn model_ctx(kind: u8) -> CtxModel {
 }
 
 pub const GRID_NAMES: &[&str] = &["ga.geoid", "gb.geoid"];
-pub const PROBES: [[f64; 4]; 2] = [[0.0, 0.0, 0.0, 0.0], [0.0, 0.0, 50.0, 2000.0]];
+/// A hierarchical NTv2 grid with varying node values (base 0..4N x 0..4E in one degree
+/// cells, child 1..3N x 1..3E in half degree cells): outside the exact algebra, but an
+/// operator using it must not change either
+pub const NT_GRID: &str = "nt.gsb";
+const DEG: f64 = std::f64::consts::PI / 180.0;
+/// Probe tuples: the origin twice (node of the constant grids), a point only the NTv2
+/// base grid covers, one well inside its child, and two a hair's breadth (1e-7 rad)
+/// inside the child's eastern / northern edge
+pub const PROBES: [[f64; 4]; 6] = [
+    [0.0, 0.0, 0.0, 0.0],
+    [0.0, 0.0, 50.0, 2000.0],
+    [0.5 * DEG, 0.5 * DEG, 10.0, 2000.0],
+    [2.0 * DEG, 2.0 * DEG, 10.0, 2000.0],
+    [3.0 * DEG - 1e-7, 2.0 * DEG, 10.0, 2000.0],
+    [2.0 * DEG, 3.0 * DEG - 1e-7, 10.0, 2000.0],
+];
+
+pub fn nt_grid_bytes(version: u32) -> Vec<u8> {
+    use crate::gridcodec::{Ntv2Spec, SubGridSpec};
+    let mut rng = Rng::new(0x0047_1D00 + version as u64);
+    let mut make = |name: &str, parent: &str, s: f64, w_east: f64, rows: usize, cols: usize, inc: f64| -> SubGridSpec {
+        let mut nodes = Vec::new();
+        for _ in 0..rows * cols {
+            nodes.push((rng.range(-400, 400) as f32 / 8.0, rng.range(-400, 400) as f32 / 8.0));
+        }
+        SubGridSpec {
+            name: name.to_string(),
+            parent: parent.to_string(),
+            s_lat: s,
+            n_lat: s + inc * (rows - 1) as f64,
+            e_long: -(w_east + inc * (cols - 1) as f64),
+            w_long: -w_east,
+            lat_inc: inc,
+            long_inc: inc,
+            rows,
+            cols,
+            nodes,
+        }
+    };
+    let base = make("BASE", "NONE", 0.0, 0.0, 5, 5, 3600.0);
+    let child = make("CHILD", "BASE", 3600.0, 3600.0, 5, 5, 1800.0);
+    Ntv2Spec { big_endian: version % 2 == 0, subgrids: if version % 3 == 0 { vec![child, base] } else { vec![base, child] } }.encode()
+}
 
 pub fn grid_bytes(version: u32) -> Vec<u8> {
     let mut g = GravsoftSpec::constant_geoid(version as f64);
@@ -160,19 +210,31 @@ pub struct LiveOp {
     pub fingerprint: u64,
 }
 
-/// Behaviour fingerprint: outputs on the probes in both directions, step list, name
-/// of the first step's parameters
-pub fn fingerprint(ctx: &dyn Context, h: OpHandle) -> Result<u64, String> {
+/// Behaviour fingerprint: the output for every probe in both directions (each probe
+/// applied alone, in an order decided by `order` -- the fingerprint itself is keyed by
+/// probe, so for an operator without hidden state the order cannot matter), the step
+/// list, and the first step's parameters
+pub fn fingerprint(ctx: &dyn Context, h: OpHandle, order: u64) -> Result<u64, String> {
     catch(|| {
+        let n = PROBES.len() * 2;
+        let mut sequence: Vec<usize> = (0..n).collect();
+        let mut r = Rng::new(order);
+        r.shuffle(&mut sequence);
+        let mut results = vec![[0u64; 5]; n];
+        for s in sequence {
+            let inv = s >= PROBES.len();
+            let p = PROBES[s % PROBES.len()];
+            let mut data = vec![Coor4D(p)];
+            let count = ctx.apply(h, if inv { Inv } else { Fwd }, &mut data).map(|n| n as u64).unwrap_or(u64::MAX);
+            results[s][4] = count;
+            for k in 0..4 {
+                results[s][k] = if data[0][k].is_nan() { 1 } else { data[0][k].to_bits() };
+            }
+        }
         let mut d = Hash128::new();
-        for inv in [false, true] {
-            let mut data: Vec<Coor4D> = PROBES.iter().map(|p| Coor4D(*p)).collect();
-            let n = ctx.apply(h, if inv { Inv } else { Fwd }, &mut data).map(|n| n as u64).unwrap_or(u64::MAX);
-            d.u64(n);
-            for c in &data {
-                for k in 0..4 {
-                    d.u64(if c[k].is_nan() { 1 } else { c[k].to_bits() });
-                }
+        for r in &results {
+            for v in r {
+                d.u64(*v);
             }
         }
         match ctx.steps(h) {
@@ -244,12 +306,27 @@ pub fn root_dir(root: &std::path::Path, which: u8) -> PathBuf {
 }
 
 pub fn wipe_roots(root: &std::path::Path) {
+    wipe_roots_opt(root, true)
+}
+
+pub fn wipe_roots_opt(root: &std::path::Path, create: bool) {
     for w in 0..2 {
         let d = root_dir(root, w);
         util::remove_any(&d);
-        std::fs::create_dir_all(d.join("resources")).unwrap();
-        std::fs::create_dir_all(d.join("geoid")).unwrap();
+        if create {
+            std::fs::create_dir_all(d.join("resources")).unwrap();
+            std::fs::create_dir_all(d.join("geoid")).unwrap();
+            std::fs::create_dir_all(d.join("gsb")).unwrap();
+        }
     }
+}
+
+fn write_file(path: &std::path::Path, bytes: &[u8]) {
+    if let Some(parent) = path.parent() {
+        let _ = std::fs::create_dir_all(parent);
+    }
+    util::remove_any(path);
+    let _ = std::fs::write(path, bytes);
 }
 
 // ----- generation -------------------------------------------------------------------
@@ -273,7 +350,9 @@ fn gen_step(rng: &mut Rng) -> String {
         }
         3 => "shadow".to_string(),
         4 => (*rng.pick(MACRO_NAMES)).to_string(),
-        5 => match rng.below(4) {
+        5 => match rng.below(6) {
+            4 => format!("gridshift grids={}", NT_GRID),
+            5 => format!("gridshift grids=@{}, {}", NT_GRID, rng.pick(GRID_NAMES)),
             0 => format!("gridshift grids={}", rng.pick(GRID_NAMES)),
             1 => format!("gridshift grids=@{}", rng.pick(GRID_NAMES)),
             2 => format!("gridshift grids={}, {}", GRID_NAMES[0], GRID_NAMES[1]),
@@ -381,7 +460,7 @@ impl Engine for RegSim {
                 "macro invocations carry no arguments (argument passing is C04's subject), so that a macro's value is its body's value",
                 "the sequential cache model is exact: a grid lookup is served from the cache if the name is cached, else from the first root holding the file",
             ],
-            required_probes: &["shadow_builtin_after_creation", "reregistration_after_creation", "foreign_handle", "forged_handle", "file_macro_from_resource_file", "file_macro_from_register", "register_item_at_eof_without_terminator", "register_item_first_in_file", "register_cr_only", "runtime_beats_file", "second_root_used", "broken_file_falls_through", "grid_replaced_while_cached", "clear_then_new_version", "refusing_constructor", "recursive_macro", "op_after_clear_old_handle_alive", "op_from_another_os_thread", "storm_of_failing_instantiations", "burst_of_instantiations"],
+            required_probes: &["shadow_builtin_after_creation", "reregistration_after_creation", "foreign_handle", "forged_handle", "file_macro_from_resource_file", "file_macro_from_register", "register_item_at_eof_without_terminator", "register_item_first_in_file", "register_cr_only", "runtime_beats_file", "second_root_used", "broken_file_falls_through", "grid_replaced_while_cached", "clear_then_new_version", "refusing_constructor", "recursive_macro", "op_after_clear_old_handle_alive", "op_from_another_os_thread", "storm_of_failing_instantiations", "burst_of_instantiations", "context_created_before_its_search_roots", "ntv2_operator_created"],
             exhaustive: false,
         }
     }
@@ -463,17 +542,21 @@ impl Engine for RegSim {
                     events.push(Ev::DeleteResource { root: rng.below(2) as u8, file });
                 }
                 11 => {
-                    events.push(Ev::WriteGrid { root: rng.below(2) as u8, name: rng.pick(GRID_NAMES).to_string(), version });
+                    let name = if rng.chance(0.3) { NT_GRID } else { *rng.pick(GRID_NAMES) };
+                    events.push(Ev::WriteGrid { root: rng.below(2) as u8, name: name.to_string(), version });
                     version += 1;
                 }
-                12 => events.push(Ev::DeleteGrid { root: rng.below(2) as u8, name: rng.pick(GRID_NAMES).to_string() }),
+                12 => {
+                    let name = if rng.chance(0.3) { NT_GRID } else { *rng.pick(GRID_NAMES) };
+                    events.push(Ev::DeleteGrid { root: rng.below(2) as u8, name: name.to_string() })
+                }
                 _ => {
                     events.push(Ev::Op { ctx, def: gen_def(&mut rng) });
                     n_ops += 1;
                 }
             }
         }
-        PlanR { ctxs, events }
+        PlanR { roots_exist: rng.chance(0.6), ctxs, events }
     }
 
     fn plan_size(&self, plan: &PlanR) -> usize {
@@ -485,7 +568,7 @@ impl Engine for RegSim {
         let n = plan.events.len();
         // Dropping an Op event shifts the ordinals of later operators: renumber
         let drop_range = |s: usize, e: usize| -> PlanR {
-            let mut p = PlanR { ctxs: plan.ctxs.clone(), events: Vec::new() };
+            let mut p = PlanR { roots_exist: plan.roots_exist, ctxs: plan.ctxs.clone(), events: Vec::new() };
             // ordinal map
             let mut map: Vec<Option<u16>> = Vec::new();
             let mut next = 0u16;
@@ -568,7 +651,10 @@ impl Engine for RegSim {
     }
 
     fn execute(&mut self, plan: &PlanR, rec: &mut Recorder) {
-        wipe_roots(&self.root);
+        wipe_roots_opt(&self.root, plan.roots_exist);
+        if !plan.roots_exist {
+            rec.probe("context_created_before_its_search_roots");
+        }
         Plain::verif_reset_grids();
         let n_ctx = plan.ctxs.len().max(1);
         let mut ctxs: Vec<AnyCtx> = plan.ctxs.iter().map(|k| AnyCtx::make(*k)).collect();
@@ -684,7 +770,7 @@ impl Engine for RegSim {
                                     break;
                                 }
                             }
-                            let fp = match fingerprint(ctxs[c].get(), h) {
+                            let fp = match fingerprint(ctxs[c].get(), h, k as u64) {
                                 Ok(f) => f,
                                 Err(p) => {
                                     rec.violate("I-safe", &format!("apply/steps/params panics: {}", p), format!("event {} op('{}')", k, def));
@@ -693,6 +779,9 @@ impl Engine for RegSim {
                             };
                             if cleared_since_op && !ops.is_empty() {
                                 rec.probe("op_after_clear_old_handle_alive");
+                            }
+                            if def.contains(NT_GRID) && val == Val::Opaque {
+                                rec.probe("ntv2_operator_created");
                             }
                             cleared_since_op = false;
                             ops.push(LiveOp { ctx: c, handle: h, expect: val, fingerprint: fp });
@@ -754,6 +843,13 @@ impl Engine for RegSim {
                                 break;
                             }
                         }
+                    }
+                    if !foreign {
+                        // leave the operator (and whatever it shares with others) in a state that
+                        // differs from run to run: one more apply of a single probe
+                        let p = PROBES[(k + *op as usize) % PROBES.len()];
+                        let mut one = vec![Coor4D(p)];
+                        let _ = catch(|| ctxs[c].get().apply(o.handle, if *inv { Inv } else { Fwd }, &mut one));
                     }
                     rec.logf(|| format!("e{} ctx{} apply #{} foreign={}", k, c, op, foreign));
                 }
@@ -910,8 +1006,7 @@ impl Engine for RegSim {
                     sig.str("W");
                     let w = (*root % 2) as usize;
                     let path = root_dir(&self.root, *root).join("resources").join(file);
-                    util::remove_any(&path);
-                    let _ = std::fs::write(&path, text);
+                    write_file(&path, text.as_bytes());
                     world.roots[w].resources.insert(file.clone(), Some(text.clone()));
                     changed_world = true;
                     rec.logf(|| format!("e{} root{} write {} ({} bytes)", k, w, file, text.len()));
@@ -921,6 +1016,9 @@ impl Engine for RegSim {
                     let w = (*root % 2) as usize;
                     let path = root_dir(&self.root, *root).join("resources").join(file);
                     util::remove_any(&path);
+                    if let Some(parent) = path.parent() {
+                        let _ = std::fs::create_dir_all(parent);
+                    }
                     match how % 3 {
                         0 => {
                             let _ = std::fs::create_dir_all(&path);
@@ -951,9 +1049,8 @@ impl Engine for RegSim {
                 Ev::WriteGrid { root, name, version } => {
                     sig.str("G");
                     let w = (*root % 2) as usize;
-                    let path = root_dir(&self.root, *root).join("geoid").join(name);
-                    util::remove_any(&path);
-                    let _ = std::fs::write(&path, grid_bytes(*version));
+                    let path = root_dir(&self.root, *root).join(if name == NT_GRID { "gsb" } else { "geoid" }).join(name);
+                    write_file(&path, &if name == NT_GRID { nt_grid_bytes(*version) } else { grid_bytes(*version) });
                     if world.cache.contains_key(name) {
                         rec.probe("grid_replaced_while_cached");
                         rec.fault("grid_file_replaced_while_cached");
@@ -965,7 +1062,7 @@ impl Engine for RegSim {
                 Ev::DeleteGrid { root, name } => {
                     sig.str("X");
                     let w = (*root % 2) as usize;
-                    util::remove_any(&root_dir(&self.root, *root).join("geoid").join(name));
+                    util::remove_any(&root_dir(&self.root, *root).join(if name == NT_GRID { "gsb" } else { "geoid" }).join(name));
                     world.roots[w].grids.remove(name);
                     rec.fault("grid_file_deleted");
                     changed_world = true;
@@ -974,7 +1071,7 @@ impl Engine for RegSim {
             }
             // I-imm: every operator ever created still has its creation-time fingerprint
             for (n, o) in ops.iter().enumerate() {
-                match fingerprint(ctxs[o.ctx].get(), o.handle) {
+                match fingerprint(ctxs[o.ctx].get(), o.handle, (k as u64) << 16 | n as u64) {
                     Ok(fp) if fp == o.fingerprint => {}
                     Ok(_) => {
                         rec.violate(
